@@ -117,8 +117,9 @@ func (dl *datalog) nextWritableSegmentID() (uint16, uint64, error) {
 
 func (dl *datalog) swapSegment() error {
 	// Pick unfilled segment.
+	// Only the newest segment is writable: recovery replays segments in the sequence ID order.
 	for _, seg := range dl.segments {
-		if seg != nil && !seg.meta.Full {
+		if seg != nil && !seg.meta.Full && seg.sequenceID == dl.maxSequenceID {
 			dl.curSeg = seg
 			return nil
 		}
